@@ -71,6 +71,13 @@ CHECKS = {
         "Relations between executions, no hand-written expected values. Shapes from a fixed table; lattice only.",
         "DESIGN.md 5 C14",
     ),
+    "C09": (
+        "model_checking",
+        "bounded exhaustive enumeration of programs: every transformable entity type (carrying every edge kind) x all sequences of <=2 (thorough 3) transformations from a 7-element alphabet in method and list form, executed on the real library; differential oracle G(T(e)) = M_T G(e) on unlabelled output geometry (assembled vertices, written arc points, spline points, wire lengths); copy() equivalence/independence; purity of helpers",
+        "28 entity types (Point, Face with Arc/Spline/PolyLine/Origin/Angle edges, 5 curve kinds, Loft/Extrude/Revolve/Wedge/OnCurve loft/Box, Grid/OneCore/FourCore sketches, ExtrudedShape, Cylinder, Frustum, Elbow, Extruded/RevolvedRing, Hemisphere, Extruded/RevolvedStack, TJoint) x translate / rotate / scale / mirror with non-zero origins, non-unit axes and default origins.",
+        "Trusted: affine composition and unlabelled matcher in mc/props/c09.py, circle model for Angle edges. Shear not covered (not in the property).",
+        "DESIGN.md 5 C09",
+    ),
     "C02": (
         "model_checking",
         "stateless model checking of the implementation: choice-point explorer over set iteration orders (iterative deviation bounding) x exhaustive insertion orders / corner numberings / chop placements of small lattice assemblies, edge-family reference model",
